@@ -17,6 +17,7 @@ pub mod scope;
 pub mod toks;
 pub use heapmon::rng;
 pub mod trace;
+pub mod v8run;
 
 /// reference (big-step) interpreter over the checked source AST
 #[cfg(feature = "exec")]
